@@ -500,12 +500,13 @@ def run_impl(d):
             lin.chk(fails, ["C18"], "vmap over %s differs from the stacked eager runs" % n0, site, vout, ex)
         except Exception as e:
             fails.append(lin.fail(["C18"], "vmap raises %s: %s" % (type(e).__name__, str(e)[:160]), site))
-    # reverse-mode gradient of the summed output w.r.t. every continuous parameter vs central differences
-    # (not for the heteroscedastic bounds: their variational parameters are found by a lax.while_loop under
-    # stop_gradient, so AD returns the partial derivative at the last iterate while central differences follow the
-    # iteration; the two agree only at an exact optimum)
-    if d["pipe"] == "approx" and d["kind"] not in ("lrbf", "lsem"):
-        return ob, fails
+    # reverse-mode gradient of the summed output w.r.t. every continuous parameter vs central differences.
+    # Heteroscedastic bounds: their variational parameters sit under stop_gradient, so AD returns the partial derivative
+    # at the returned iterate; it equals the total derivative (what central differences measure) because the iterate is
+    # the optimum of the bound up to the loop's stopping tolerance 1e-5 (envelope theorem) -- hence the tolerance 1e-4
+    # there.  (An earlier version of this check skipped these pipelines; that hid two genuine defects, see
+    # known_findings.json: the fixed-point loop never ran, and the ReLU tangent point was not the optimum.)
+    gtol = 1e-4 if (d["pipe"] == "approx" and d["kind"] not in ("lrbf", "lsem")) else 1e-5
     try:
         # weighted sum with constant weights 1/max(1,|eager_i|): every term is O(1), so that the central differences
         # are not swamped by the rounding of one huge output component
@@ -528,7 +529,7 @@ def run_impl(d):
                 e = np.zeros_like(base); e[idx] = h
                 g_fd[idx] = (float(s(dict(theta, **{n: jnp.array(base + e)}))) - float(s(dict(theta, **{n: jnp.array(base - e)})))) / (2 * h)
             scale = max(1.0, float(np.max(np.abs(g_fd))))
-            if not np.all(np.isfinite(g_ad)) or float(np.max(np.abs(g_ad - g_fd))) > 1e-5 * scale:
+            if not np.all(np.isfinite(g_ad)) or float(np.max(np.abs(g_ad - g_fd))) > gtol * scale:
                 fails.append(lin.fail(["C18"], "gradient w.r.t. %s differs from central differences" % n, site,
                                       maxdiff=float(np.max(np.abs(g_ad - g_fd))), scale=scale))
     except Exception as e:
